@@ -4,6 +4,7 @@ import (
 	"fmt"
 	"go/ast"
 	"go/token"
+	"sort"
 	"strings"
 
 	"golang.org/x/tools/go/ssa"
@@ -238,6 +239,90 @@ func ruleS4(c *Ctx) {
 	c.check(okVer, "S4", "reply-version-span", fn.Pos(), "the reply's Version field is the matched prefix without its trailing space")
 }
 
+// scannerSets: exact byte sets of the four token scanners. Each is a single loop over buf[offs]; the set of bytes
+// on which the loop goes round (exact byte set of that cell at the back edge) must be precisely the documented one.
+// Anything the byte-set engine cannot evaluate (a table lookup, a masked index, a helper it cannot inline) leaves
+// the full set and fails the comparison: the rule never guesses.
+func scannerSets(c *Ctx, rule string) {
+	ws := func(i int) bool { return i == ' ' || i == '\t' || i == '\r' || i == '\n' }
+	want := map[string]func(int) bool{
+		"skipToken":      func(i int) bool { return !ws(i) },
+		"skipTokenDelim": func(i int) bool { return !ws(i) }, // minus the delimiter parameter, checked structurally
+		"skipWS":         func(i int) bool { return i == ' ' || i == '\t' },
+		"skipLine":       func(i int) bool { return i != '\r' && i != '\n' },
+	}
+	var names []string
+	for k := range want {
+		names = append(names, k)
+	}
+	sort.Strings(names)
+	for _, name := range names {
+		fn := c.SFuncs[name]
+		if fn == nil {
+			c.fail(rule, "scanner:"+name, token.NoPos, "not found")
+			continue
+		}
+		bp := bufParam(fn)
+		loops := naturalLoops(fn)
+		if bp == nil || len(loops) != 1 {
+			c.fail(rule, "scanner:"+name, fn.Pos(), fmt.Sprintf("expected one scanning loop, found %d", len(loops)))
+			continue
+		}
+		l := loops[0]
+		var got *ByteSet
+		for _, back := range l.back {
+			// the element load that controls the loop
+			for b := range l.body {
+				for _, ins := range b.Instrs {
+					ld, ok := ins.(*ssa.UnOp)
+					if !ok || ld.Op != token.MUL {
+						continue
+					}
+					ia, ok := ld.X.(*ssa.IndexAddr)
+					if !ok || ia.X != ssa.Value(bp) {
+						continue
+					}
+					re := newRangeEnv(fn)
+					if s := re.byteSetOf(ld, back); s != nil {
+						if got == nil {
+							got = s
+						} else {
+							got = got.filter(func(i int) bool { return s.has(i) })
+						}
+					}
+				}
+			}
+		}
+		if got == nil {
+			c.fail(rule, "scanner:"+name, fn.Pos(), "no byte of the buffer is tested in the loop")
+			continue
+		}
+		exp := fullSet().filter(want[name])
+		okSet := got.eq(exp)
+		extra := ""
+		if name == "skipTokenDelim" {
+			// the delimiter: some loop condition compares the element with the byte parameter
+			okD := false
+			for b := range l.body {
+				for _, ins := range b.Instrs {
+					if bo, ok := ins.(*ssa.BinOp); ok && (bo.Op == token.NEQ || bo.Op == token.EQL) {
+						_, px := bo.X.(*ssa.Parameter)
+						_, py := bo.Y.(*ssa.Parameter)
+						if px || py {
+							okD = true
+						}
+					}
+				}
+			}
+			okSet = okSet && okD
+			extra = " and on the delimiter parameter"
+		}
+		c.check(okSet, rule, "scanner:"+name, fn.Pos(), fmt.Sprintf("%s goes on exactly over the bytes %s (expected %s)%s", name, got.String(), exp.String(), extra))
+	}
+}
+
+func ruleS5(c *Ctx) { scannerSets(c, "S5") }
+
 func init() {
 	register(&PropDef{
 		ID: "C08",
@@ -245,6 +330,7 @@ func init() {
 			{"S1", "status arithmetic = its own digit check: Status is 100*d0+10*d1+d2 over three consecutive bytes, each in '0'..'9' at the store (exact byte sets of the same cells), value within 0..999, StatusCode spans exactly those positions and the next byte is a single space", ruleS1},
 			{"S2", "look-ahead budget: every index in ParseFLine is discharged by the index-guard rules (14-byte minimum, Prefix summary)", func(c *Ctx) { ruleGFor(c, "S2", map[string]bool{"ParseFLine": true}) }},
 			{"S3", "MethodNo = GetMethodNo(Method.Get(buf)) right after the method token is closed and found non-empty; the method table is searched with bytes.Equal over the whole name (case-sensitive), miss = MOther", ruleS3},
+			{"S5", "exact byte sets of the token scanners the first line is cut with: skipToken goes on over exactly the bytes other than SP HT CR LF, skipWS over exactly SP HT, skipLine over everything but CR LF, skipTokenDelim like skipToken minus its delimiter parameter (exact byte set of buf[offs] at the loop's back edge; an unevaluable test leaves the full set and fails)", ruleS5},
 			{"S4", "single-space grammar: Method and URI are closed only when the delimiter byte set is exactly {SP}, Version only on {CR, LF}; a reply is recognised by the 8-byte prefix \"SIP/2.0 \" including the space and its Version excludes that space", ruleS4},
 		},
 		Assumptions: []string{"skipToken stops at SP, HT, CR, LF or end of buffer (its loop condition)", "bytescase.Prefix summary"},
